@@ -15,7 +15,8 @@ RULE = ('All 63 pairs of PIN length 4..12 x PAN length 13..19 and a sweep of eve
         'every run; Hypothesis draws PINs, PANs, supplied fills (1, 2^63, 2^64-1, uniform) and keys (3DES 16/24 bytes, AES '
         '16/24/32 bytes). Oracle: format 0 = (0, L hex, PIN, F..) XOR (0000, 12 PAN digits before the check digit); format 4 = '
         '(4, L hex, PIN, A.. to 16 digits, 64 fill bits); from_bytes returns the PIN; to_enc_bytes equals the reference 3DES / AES '
-        'ECB encryption of the clear block and from_enc_bytes returns the PIN. Freshness: 200 format-4 blocks built without a '
+        'ECB encryption of the clear block and from_enc_bytes returns the PIN; this includes the format-4 block under 3DES (a class composed from '
+        'Iso4PinBlock and the 3DES mix-in, two DES blocks) and the mix-ins\' own encrypt/decrypt on 1..4 blocks of 16 bytes. Freshness: 200 format-4 blocks built without a '
         'supplied value have identical PIN fields, pairwise distinct fills whose OR is all ones and whose AND is zero. '
         'Non-trivial = PIN length > 4 or PAN length != 16; distinct by digest.')
 ASSUMPTIONS = ['PINs and PANs are decimal digit strings', 'a supplied fill of 0 is treated as "none supplied" (not generated as supplied)',
@@ -80,7 +81,7 @@ def check0(pin, pan, key=None):
     return None
 
 
-def check4(pin, fill, key=None):
+def check4(pin, fill, key=None, key3=None):
     name = f'PIN len {len(pin)}, fill {fill:#x}'
     want = clear4(pin, fill)
     try:
@@ -111,6 +112,45 @@ def check4(pin, fill, key=None):
             return exc_sig('iso4-dec-raises', ex), f'from_enc_bytes raised {ex!r} ({name})'
         if back != pin:
             return 'iso4-enc-pin-back', f'from_enc_bytes returns PIN {back!r}, expected {pin!r} ({name})'
+        # the format-4 block under 3DES: a class composed from the documented mix-ins ("or create your own class
+        # including required mix-ins"); the 16-byte clear block is two DES blocks, each encrypted on its own (ECB)
+        key3 = key3 or KEYS3[len(pin) % len(KEYS3)]
+        k3 = bytes.fromhex(key3)
+        enc_want = refcrypto.tdes_ecb_encrypt(k3, want)
+        try:
+            enc = ISO4_TDES(pin=pin, random_value=fill).to_enc_bytes(key3)
+        except Exception as ex:
+            return exc_sig('iso4-tdes-enc-raises', ex), f'(Iso4PinBlock + TdesEncryptedPinBlockMixin).to_enc_bytes raised {ex!r} ({name})'
+        if enc != enc_want:
+            return 'iso4-tdes-ciphertext', (f'3DES ciphertext of the format-4 block (Iso4PinBlock + TdesEncryptedPinBlockMixin) is {enc.hex()}, '
+                                            f'3DES-ECB reference {enc_want.hex()} ({name}, key {len(k3)} bytes)')
+        try:
+            back = ISO4_TDES.from_enc_bytes(enc_pin_block=enc_want, key=key3).pin
+        except Exception as ex:
+            return exc_sig('iso4-tdes-dec-raises', ex), f'(Iso4PinBlock + TdesEncryptedPinBlockMixin).from_enc_bytes raised {ex!r} ({name})'
+        if back != pin:
+            return 'iso4-tdes-enc-pin-back', f'(Iso4PinBlock + TdesEncryptedPinBlockMixin).from_enc_bytes returns PIN {back!r}, expected {pin!r} ({name})'
+    return None
+
+
+ISO4_TDES = type('Iso4TdesPinBlock', (pinblock.Iso4PinBlock, pinblock.TdesEncryptedPinBlockMixin), {})
+
+
+def check_mixin_ecb(data, key3, keya):
+    """the mix-ins' own encrypt / decrypt on 1..4 AES-sized blocks: ECB, every cipher block on its own"""
+    for name, mixin, key, ref_enc in (('tdes', pinblock.TdesEncryptedPinBlockMixin, key3, refcrypto.tdes_ecb_encrypt),
+                                      ('aes', pinblock.AESEncryptedPinBlockMixin, keya, refcrypto.aes_ecb_encrypt)):
+        kb = bytes.fromhex(key)
+        want = ref_enc(kb, data)
+        try:
+            enc = mixin.encrypt(key, data)
+            dec = mixin.decrypt(key, want)
+        except Exception as ex:
+            return exc_sig(f'{name}-mixin-raises', ex), f'{mixin.__name__}.encrypt/decrypt raised {ex!r} on {len(data)} bytes'
+        if enc != want:
+            return f'{name}-mixin-encrypt-not-ecb', f'{mixin.__name__}.encrypt of {data.hex()} is {enc.hex()}, ECB reference {want.hex()} (key {len(kb)} bytes)'
+        if dec != data:
+            return f'{name}-mixin-decrypt-not-ecb', f'{mixin.__name__}.decrypt of the ECB reference ciphertext {want.hex()} is {dec.hex()}, expected {data.hex()} (key {len(kb)} bytes)'
     return None
 
 
@@ -212,7 +252,7 @@ def hyp_blocks(ctx, n):
     keya = st.one_of(st.sampled_from(KEYSA), st.sampled_from([16, 24, 32]).flatmap(lambda k: st.binary(min_size=k, max_size=k)).map(bytes.hex))
 
     def body(v):
-        pin, pan, fill, k3, ka = v
+        pin, pan, fill, k3, ka, data = v
         ctx.case(key=harness.digest((pin, pan, fill, k3, ka)), nontrivial=len(pin) > 4 or len(pan) != 16,
                  labels=['hyp', f'pinlen={len(pin)}', f'panlen={len(pan)}', f'3des-key={len(k3) // 2}', f'aes-key={len(ka) // 2}'])
         if len(ctx.samples) < 3:
@@ -220,10 +260,14 @@ def hyp_blocks(ctx, n):
         res = check0(pin, pan, k3)
         if res:
             ctx.fail(res[0], {'fmt': 0, 'pin': pin, 'pan': pan, 'key': k3}, res[1])
-        res = check4(pin, fill, ka)
+        res = check4(pin, fill, ka, k3)
         if res:
-            ctx.fail(res[0], {'fmt': 4, 'pin': pin, 'fill': fill, 'key': ka}, res[1])
-    harness.drive(ctx, st.tuples(digits(4, 12), digits(13, 19), fills, key3, keya), body, n, salt='blocks')
+            ctx.fail(res[0], {'fmt': 4, 'pin': pin, 'fill': fill, 'key': ka, 'key3': k3}, res[1])
+        res = check_mixin_ecb(data, k3, ka)
+        if res:
+            ctx.fail(res[0], {'fmt': 'mixin', 'data': data, 'key3': k3, 'key': ka}, res[1])
+    blocks = st.sampled_from([16, 32, 48, 64]).flatmap(lambda k: st.one_of(st.binary(min_size=k, max_size=k), st.binary(min_size=16, max_size=16).map(lambda b: (b * 4)[:k])))
+    harness.drive(ctx, st.tuples(digits(4, 12), digits(13, 19), fills, key3, keya, blocks), body, n, salt='blocks')
 
 
 def tasks(tier, seed):
@@ -239,5 +283,7 @@ def replay(case):
     if case['fmt'] == 0:
         return check0(case['pin'], case['pan'], case.get('key'))
     if case['fmt'] == 4:
-        return check4(case['pin'], case['fill'], case.get('key'))
+        return check4(case['pin'], case['fill'], case.get('key'), case.get('key3'))
+    if case['fmt'] == 'mixin':
+        return check_mixin_ecb(case['data'], case['key3'], case['key'])
     return check_fresh(case['pin'])
